@@ -9,6 +9,7 @@ import (
 	"regexp"
 	"strconv"
 	"strings"
+	"sync"
 	"time"
 	"unicode"
 
@@ -1738,6 +1739,30 @@ func createSchemaFromTypeWithCycleDetection(fieldType reflect.Type, fieldInfo ta
 	return createSchemaFromTypeWithInfo(fieldType, fieldInfo, visited)
 }
 
+// lazyStructObjects holds, per struct type, the object schema a circular field resolves to.
+// Every resolution of such a field used to build a NEW object schema (with new lazy fields
+// inside, which in turn built new ones): the schema graph of a self-referential struct type was
+// an infinite tree of distinct instances, and anything that walks a schema by identity — the
+// JSON Schema converter's seen set — never met a node twice and recursed until the stack overflowed.
+// One object schema per type makes the recursion close: its lazy fields are the same instances
+// on every visit.
+var lazyStructObjects sync.Map // reflect.Type -> core.ZodSchema
+
+// lazyStructObject returns the object schema built from t's gozod tags (Any when there are none).
+func lazyStructObject(t reflect.Type) core.ZodSchema {
+	if v, ok := lazyStructObjects.Load(t); ok {
+		return v.(core.ZodSchema)
+	}
+	var schema core.ZodSchema = Any()
+	if hasGozodTags(t) {
+		if fieldSchemas := parseStructTagsToSchemas(t); len(fieldSchemas) > 0 {
+			schema = Object(fieldSchemas)
+		}
+	}
+	actual, _ := lazyStructObjects.LoadOrStore(t, schema)
+	return actual.(core.ZodSchema)
+}
+
 // createLazySchemaForType creates a lazy schema for circular reference types
 func createLazySchemaForType(fieldType reflect.Type, fieldInfo tagparser.FieldInfo) core.ZodSchema {
 	// Store the original type for later reference
@@ -1764,18 +1789,7 @@ func createLazySchemaForType(fieldType reflect.Type, fieldInfo tagparser.FieldIn
 		lazyElementSchema := Lazy(func() core.ZodSchema {
 			// Create the nested struct schema
 			// The cache in parseStructTagsToSchemas will prevent infinite recursion
-			var schema core.ZodSchema
-			if hasGozodTags(elementType) {
-				// This will use cached schemas on subsequent calls
-				fieldSchemas := parseStructTagsToSchemas(elementType)
-				if len(fieldSchemas) > 0 {
-					schema = Object(fieldSchemas)
-				} else {
-					schema = Any()
-				}
-			} else {
-				schema = Any()
-			}
+			schema := lazyStructObject(elementType)
 
 			// If slice element is a pointer, handle that
 			if isElementPointer {
@@ -1798,18 +1812,7 @@ func createLazySchemaForType(fieldType reflect.Type, fieldInfo tagparser.FieldIn
 	lazySchema := Lazy(func() core.ZodSchema {
 		// Create the nested struct schema
 		// The cache in parseStructTagsToSchemas will prevent infinite recursion
-		var schema core.ZodSchema
-		if hasGozodTags(actualType) {
-			// This will use cached schemas on subsequent calls
-			fieldSchemas := parseStructTagsToSchemas(actualType)
-			if len(fieldSchemas) > 0 {
-				schema = Object(fieldSchemas)
-			} else {
-				schema = Any()
-			}
-		} else {
-			schema = Any()
-		}
+		schema := lazyStructObject(actualType)
 
 		// Handle pointer wrapper if needed
 		if isPointer && !capturedInfo.Required {
